@@ -13,7 +13,7 @@ SEARCH = 6000            # search limit of the implementation runs (finite, so n
 UD_CALLS = 600_000       # > the calls of two lazy consumptions within the oracle's budget
 ORACLE_BUDGET = 3000     # pulls of any one source the oracle is willing to do
 FUEL = 400000            # steps of the model
-PRODUCT_IN_MODEL = False  # the model driver has no `product` token yet: the family is decided by the oracle
+PRODUCT_IN_MODEL = True   # `gen ptoarray … product:k` (XrayModel/GenProduct.lean): to_array of a product without trailing operations
 WATCHDOG = 60.0          # seconds before a single request counts as a hang (generous: the machine may be loaded)
 
 
@@ -762,14 +762,21 @@ def cons_name(cons, arg):
     return f"{cons}:{arg}"
 
 
+def model_line(p, cons, arg):
+    if getattr(p, "nomodel", False) or (hasattr(p, "product_spec") and cons != "toarray"):
+        return "ping"
+    if hasattr(p, "product_spec"):
+        return f"gen ptoarray {SEARCH} {FUEL} " + " ".join(p.toks)
+    return f"gen {cons_name(cons, arg)} {SEARCH} {FUEL} " + " ".join(p.toks)
+
+
 def run_cases(cases):
     """cases: list of (Pipe, cons, arg, call). Returns per case (impl_a, impl_b, ud_calls, model, oracle, oracle_calls)"""
     reqs, mlines = [], []
     for p, cons, arg, call in cases:
         src = f"let g = {p.src};\nlet a = g.{call};\nlet b = g.{call};\n"
         reqs.append({"op": "run", "src": src, "get": ["a", "b"], "limits": {"search": SEARCH, "ud_calls": UD_CALLS}})
-        mlines.append("ping" if getattr(p, "nomodel", False) else
-                      f"gen {cons_name(cons, arg)} {SEARCH} {FUEL} " + " ".join(p.toks))
+        mlines.append(model_line(p, cons, arg))
     impl = run_harness(reqs, per_req_timeout=WATCHDOG)
     model = run_model(mlines)
     out = []
@@ -786,7 +793,7 @@ def run_cases(cases):
             want, ocalls = dump(v), (ctx.calls, ctx.starts)
         except Diverge:
             want, ocalls = None, None
-        out.append((a, b, calls, None if getattr(p, "nomodel", False) else parse_model(m), want, ocalls))
+        out.append((a, b, calls, None if m == "pong" or model_line(p, cons, arg) == "ping" else parse_model(m), want, ocalls))
     return out
 
 
@@ -928,8 +935,8 @@ def run(chk):
         src = f"let g = {p.src}; let a = g.{call}; let b = g.{call};"
         replay = {"src": src, "get": ["a", "b"], "limits": {"search": SEARCH, "ud_calls": UD_CALLS},
                   "expected": res[4], "got": res[0], "got_second": res[1], "model_out": res[3]}
-        if not getattr(p, "nomodel", False):
-            replay["model"] = f"gen {cons_name(cons, arg)} {SEARCH} {FUEL} " + " ".join(p.toks)
+        if model_line(p, cons, arg) != "ping":
+            replay["model"] = model_line(p, cons, arg)
         key = ("corpus:" + str(i) if i < len(fixed) else "pipe:" + sig) + ":" + cons + ":" + kind
         chk.violation(("tie:" + key) if kind in ("tie", "harness") else key, f"{src}  — {text}", replay,
                       no_input=kind in ("tie", "harness"))
